@@ -471,9 +471,15 @@ func (c *Ctx) ruleTaskQueueing(rr *RuleRep, rq *RuleRep, onlyReq ...string) {
 			rep.Lost(key+"/closure", "no closure issuing BaseClient.%s found in %s", api.Base, api.Req)
 			continue
 		}
+		implF := c.implOf(base)
 		isDirect := func(in ssa.Instruction) bool {
 			k, ok := in.(*ssa.Call)
-			return ok && c.StaticCalleeOf(&k.Call) == reqC
+			if !ok {
+				return false
+			}
+			callee := c.StaticCalleeOf(&k.Call)
+			// the request closure is invoked, or (its body inlined at the place of the call) the request is issued right here
+			return callee != nil && (callee == reqC || callee == base || callee == implF)
 		}
 		isQueued := func(in ssa.Instruction) bool {
 			st, ok := in.(*ssa.Store)
